@@ -39,7 +39,7 @@ ASSUMPTIONS = [
     "real-valued chi^2 are instantiated from a finite alphabet containing ties, +inf and NaN plus seed-derived values",
     "two FitInfo objects with equal canonical encoding (all fields and all instance attributes) have equal futures",
 ]
-REQUIRED_CLASSES = ['n>total', 'empty-vector', 'all-inf', 'nan-present', 'tie-straddles-N-cut',
+REQUIRED_CLASSES = ['ranking-of-hundreds-of-fits', 'n>total', 'empty-vector', 'all-inf', 'nan-present', 'tie-straddles-N-cut',
                     'cut-strictly-inside', 'kept-all', 'kept-none', 'model_fluxes-None', 'unsorted-through-sort',
                     'longer-vector', 'flags-changed-on-live-source']
 
@@ -105,7 +105,18 @@ def setup(tier, seed):
                 v = [ALPHA[i] for i in c]
                 if sorted(range(L), key=lambda i: (v[i] != v[i], v[i])) != list(range(L)) and (sum(c) + L) % 5 == seed % 5:
                     unsorted_vecs.append(v)
-    return {'tier': tier, 'seed': seed, 'ranked': ranked, 'longer': longer, 'unsorted': unsorted_vecs,
+    # scale: rankings of several hundred fits (cuts beyond positions 127 / 255), tail of 1e30, inf and NaN rows
+    huge = []
+    for L, shift in ((300, 0.0007), (700, 0.0003)) if tier == 'quick' else ((300, 0.0007), (700, 0.0003), (1500, 0.0011), (5000, 0.0013)):
+        for attempt in range(50):
+            step = (14.0 / (L - 10)) * (1.0 + shift * (attempt + 1))        # statistics are multiples of the step: moved until none sits on a threshold
+            chi = [0.0531 + i * step for i in range(L - 10)] + [1e30] * 6 + [INF] * 2 + [NAN] * 2
+            if _check_thresholds(chi):
+                break
+        else:
+            raise AssertionError('no admissible lattice for L=%d' % L)
+        huge.append(chi)
+    return {'tier': tier, 'seed': seed, 'ranked': ranked, 'longer': longer, 'unsorted': unsorted_vecs, 'huge': huge,
             'pairs_lmax': 5 if tier == 'thorough' else 3}
 
 
@@ -114,6 +125,8 @@ def cases(ctx):
         yield {'kind': 'ranked', 'chi': _enc(chi)}
     for chi in ctx['longer']:
         yield {'kind': 'longer', 'chi': _enc(chi)}
+    for chi in ctx['huge']:
+        yield {'kind': 'huge', 'chi': _enc(chi)}
     group = []
     for v in ctx['unsorted']:
         group.append(_enc(v))
@@ -126,7 +139,7 @@ def cases(ctx):
 
 def evidence_extra(ctx):
     return {'bounds': 'vector length 0..5 exhaustively over a 6-value alphabet (462 ranked multisets) x 3 n_data x 2; '
-                      '%d seed-derived vectors of length 6..12; %d unsorted vectors through sort(); 31 selectors; BFS to '
+                      '%d seed-derived vectors of length 6..12; rankings of 300 and 700 (thorough: up to 5000) fits with cuts around positions 127/128, 255/256 and the tail; %d unsorted vectors through sort(); 31 selectors; BFS to '
                       'fixpoint; all 961 selector pairs from every reachable state of vectors up to length %d'
                       % (len(ctx['longer']), len(ctx['unsorted']), ctx['pairs_lmax']),
             'alphabet_digest': 'alpha=%s thresholds=%s seed=%d' % (_enc(ALPHA), THRESH, ctx['seed'])}
@@ -194,8 +207,9 @@ def _check_step(before, obj, k):
     return None
 
 
-def _explore(rec, case_id, chi, nd, flags, with_mf, presort, do_pairs):
+def _explore(rec, case_id, chi, nd, flags, with_mf, presort, do_pairs, SELECTORS=None):
     """BFS to fixpoint from one initial state, on the real objects."""
+    SELECTORS = SELECTORS or globals()['SELECTORS']
     from mc.canon import state_hash as canon      # state identity (private attributes included), not an oracle
 
     def build(hist):
@@ -334,6 +348,14 @@ def _live_source(rec, chi):
 
 
 def run_case(ctx, case, rec, d):
+    if case['kind'] == 'huge':
+        chi = _dec(case['chi'])
+        L = len(chi)
+        sels = SELECTORS + [('N', n) for n in (100, 127, 128, 129, 255, 256, 257, L - 11, L - 10, L - 1, L, L + 1)]
+        rec.cls('ranking-of-hundreds-of-fits')
+        for nd, flags in FLAGSETS.items():
+            _explore(rec, ('huge', L), chi, nd, flags, nd == 2, False, False, SELECTORS=sels)
+        return
     if case['kind'] in ('ranked', 'longer'):
         chi = _dec(case['chi'])
         if len(chi) in (3, 4) and not any(c != c for c in chi):
